@@ -49,6 +49,7 @@ struct Engine {
   std::unique_ptr<hll_union> u;
   std::vector<uint32_t> offered;      // coupons of everything offered since the last reset
   bool any_offered = false;
+  bool hll_input_seen = false;        // a non-empty HLL-mode sketch was offered since construction
   bool reset_seen = false;
   bool epoch_open = false;            // after a reset(): no non-empty input has followed yet
   bool first_hll_by_rvalue = false;   // exact epoch after a reset: the first (HLL-mode) input came through update(&&)
@@ -161,6 +162,7 @@ static void offer(Engine& E, const Operand& op, bool rvalue) {
     }
     E.trace += std::string(rvalue ? "M(" : "S(") + op.desc + ") ";
     if (op.mode == M_HLL && !op.empty() && op.lg_k < E.exp_lg_k) E.exp_lg_k = op.lg_k;
+    if (op.mode == M_HLL && !op.empty()) E.hll_input_seen = true;
   }
   E.offered.insert(E.offered.end(), op.coupons.begin(), op.coupons.end());
   if (!op.coupons.empty()) E.any_offered = true;
@@ -187,6 +189,8 @@ static void compare_content(const Engine& E, const Decoded& d, const std::string
   Diff df;
   if (d.coupon_mode()) {
     VF_CHECK(!d.duplicate_coupon, "union|result|" + chan + "|duplicate-coupon", ctx);
+    VF_CHECK(d.stored_count == d.coupons.size(), "union|result|" + chan + "|coupon-count-field-vs-coupons-present",
+             ctx + " count-field=" + std::to_string(d.stored_count) + " coupons-present=" + std::to_string(d.coupons.size()));
     df = diff_coupons(d.coupons, sorted_distinct(E.offered));
   } else {
     std::vector<uint8_t> want(size_t(1) << d.lg_k, 0);
@@ -228,6 +232,39 @@ static Final observe(Engine& E, Rng& r, bool final_obs, bool need8 = false) {
     if (t != 2 && (final_obs || r.chance(0.3))) {
       Decoded d8 = read_as_hll8(res);
       compare_content(E, d8, std::string("hll8-copy-of-") + type_name(t), tctx);
+    }
+    if (d.err.empty() && (d.coupon_mode() || (!E.reset_seen && !E.hll_input_seen))) {
+      const std::vector<uint32_t> model = sorted_distinct(E.offered);
+      SingleSketchRef& ref = single_sketch_ref(d.lg_k);
+      if (d.coupon_mode()) {
+        // compact image: count field, coupons present, coupon set
+        auto cb = res.serialize_compact();
+        Decoded dc = decode_compact(cb.data(), cb.size());
+        if (!dc.err.empty()) { checked(); fail(std::string("union|result|compact-image-") + type_name(t) + "|image-inconsistent", tctx + " " + dc.err); }
+        else {
+          VF_CHECK(dc.mode == d.mode && dc.lg_k == d.lg_k, std::string("union|result|compact-image-") + type_name(t) + "|mode-or-lg_k-differs-from-updatable-image", tctx);
+          VF_CHECK(dc.stored_count == dc.coupons.size(), std::string("union|result|compact-image-") + type_name(t) + "|coupon-count-field-vs-coupons-present",
+                   tctx + " count-field=" + std::to_string(dc.stored_count) + " coupons-present=" + std::to_string(dc.coupons.size()));
+          VF_CHECK(!dc.duplicate_coupon && dc.coupons == model, std::string("union|result|compact-image-") + type_name(t) + "|coupon-set-differs-from-model",
+                   tctx + diff_coupons(dc.coupons, model).detail);
+        }
+        // in coupon mode the estimate is a function of the number of distinct coupons: same as the single sketch's
+        double want = 0;
+        if (ref.estimate_for(model.size(), &want)) {
+          const double got = res.get_estimate(), gotc = res.get_composite_estimate();
+          VF_CHECK(rel_eq(got, want, 1e-12) && rel_eq(gotc, want, 1e-12), "union|result|coupon-mode|estimate-differs-from-single-sketch-with-the-same-distinct-coupons",
+                   tctx + " distinct-coupons=" + std::to_string(model.size()) + " estimate=" + str(got) + " composite=" + str(gotc) + " single-sketch=" + str(want));
+          count("coupon_mode_estimate_vs_single_sketch");
+        }
+      }
+      // no HLL-mode input and no reset so far: the gadget has been a lazily started sketch of lg_max_k fed coupons only,
+      // so it is in the mode of the single sketch that saw the same items
+      if (!E.reset_seen && !E.hll_input_seen) {
+        const int want_mode = ref.mode_for(model.size());
+        VF_CHECK(d.mode == want_mode, "union|result|mode-differs-from-single-sketch-fed-the-same-items",
+                 tctx + " result-mode=" + mode_name(d.mode) + " single-sketch-mode=" + mode_name(want_mode) + " distinct-coupons=" + std::to_string(model.size()));
+        count("result_mode_vs_single_sketch");
+      }
     }
     VF_CHECK(res.is_empty() == !E.any_offered, "union|result|is_empty", tctx + " reported=" + (res.is_empty() ? "empty" : "non-empty"));
     comp[t] = res.get_composite_estimate();
@@ -318,6 +355,11 @@ void run_case(uint64_t idx, Rng& r) {
   size_t rare_at = 99;
   if (rare_case) { lg_max_k = static_cast<unsigned>(r.range(4, 11)); rare_at = r.below(nops); count("rare_scenario_cases"); }
   if (rare_keys().size() < 2) count("rare_keys_failed_verification");
+  // coupon scenario: lg_max_k >= 8 and only raw batches / LIST- and SET-mode sketches (equal and different lg_k), sized so
+  // that the gadget spends the program in SET mode (or just crosses into HLL by its own promotion)
+  const bool coupon_case = !gap_case && !scenario && dense_variant == 0 && !level_case && !rare_case && r.chance(0.12);
+  if (coupon_case) { lg_max_k = static_cast<unsigned>(r.range(8, std::min<unsigned>(LGMAX, 13))); count("coupon_scenario_cases"); }
+  const uint64_t coupon_budget = coupon_case ? (3ULL << (lg_max_k - 3)) / 4 : 0;      // aims at modes only; modes are observed
   std::vector<Operand> ops(nops);
   // planted pair of inputs whose coupons share the full 26-bit address but differ in value (two distinct coupons in
   // coupon mode, one register in HLL mode): the two halves go to the same or to different operands
@@ -333,8 +375,10 @@ void run_case(uint64_t idx, Rng& r) {
     std::vector<uint64_t> level_keys;
     uint64_t cnt;
     unsigned dense_target = 0;          // dense operands: feed until every slot holds at least this value (model), then a little more
+    if (coupon_case) op.raw = r.chance(0.3);
     if (op.raw) {
       cnt = r.chance(0.5) ? r.below(12) : r.below(r.chance(0.2) ? 3000 : 300);
+      if (coupon_case) cnt = r.chance(0.3) ? r.below(8) : 8 + r.below(std::max<uint64_t>(1, coupon_budget / (r.chance(0.15) ? 1 : nops)));
       op.desc = "raw";
     } else {
       // lg_k: near lg_max_k half of the time so that <, =, > all happen
@@ -359,7 +403,14 @@ void run_case(uint64_t idx, Rng& r) {
         const uint64_t tt = r.below(4); op.type = tt < 2 ? 1 : (tt == 2 ? 0 : 2);
       }
       k = 1ULL << op.lg_k; thr = op.lg_k >= 8 ? (3 * (k >> 3)) / 4 : 8;
-      if (i == gap_at) cnt = gap_cnt;
+      if (coupon_case) {
+        op.full = false; dense = false;
+        op.lg_k = r.chance(0.45) ? lg_max_k : static_cast<unsigned>(r.range(4, LGMAX > 13 ? 14 : 13));
+        k = 1ULL << op.lg_k; thr = op.lg_k >= 8 ? (3 * (k >> 3)) / 4 : 8;
+        const uint64_t cap = std::max<uint64_t>(1, std::min<uint64_t>(thr, coupon_budget / (r.chance(0.15) ? 1 : nops)));
+        cnt = r.chance(0.4) ? 1 + r.below(7) : (op.lg_k >= 8 ? 1 + r.below(cap) : 1 + r.below(7));
+      }
+      else if (i == gap_at) cnt = gap_cnt;
       else if (i == level_at) {
         op.lg_k = level_lg_k; op.full = r.chance(0.1); op.type = r.chance(0.7) ? 0 : static_cast<int>(1 + r.below(2));
         level_keys = level_stream(r, op.lg_k, static_cast<unsigned>(1 + r.below(3)), static_cast<unsigned>(r.chance(0.5) ? 0 : r.below(3)));
